@@ -92,6 +92,7 @@ pub struct R1csCase<G: AffineRepr> {
     pub vbases: Option<(Vec<G::ScalarField>, Vec<G::ScalarField>)>,
     pub muts: Vec<Mutation<G::ScalarField>>,
     pub tag: String,
+    pub model: bool,
 }
 
 impl<G: AffineRepr> R1csCase<G> {
@@ -112,6 +113,7 @@ impl<G: AffineRepr> R1csCase<G> {
             vbases: None,
             muts: vec![],
             tag: String::new(),
+            model: true,
         }
     }
 }
@@ -262,6 +264,9 @@ pub fn run_case<G: AffineRepr>(c: &R1csCase<G>, curve: &str, modulus: &str) -> C
     let chal_p: Vec<F<G>> = chals::<F<G>>(&pr.log);
     let mut chal_v: Vec<F<G>> = vec![];
     let mut summary = format!("{} {} tag={} prover={}", id, curve, c.tag, pcode);
+    if !c.model {
+        summary = format!("{} {} nomodel=1 tag={} prover={}", id, curve, c.tag, pcode);
+    }
     if pr.result.is_err() {
         let _ = writeln!(obs.borrow_mut(), "{} 98 {}", id, pr.panic_msg.replace('\n', " "));
     }
@@ -278,6 +283,7 @@ pub fn run_case<G: AffineRepr>(c: &R1csCase<G>, curve: &str, modulus: &str) -> C
         pts.extend(parts.r.iter().map(|p| format!("x{}", hex(&pt_bytes(p)))));
         line(6, pts);
         line(7, enc_tr(&pr.log));
+        line(18, vec![format!("x{}", hex(&proof.to_bytes().unwrap()))]);
         line(9, vec![draws.len().to_string(), "0".into(), "0".into()]);
         // verifier
         let mut vparts = proof_parts(proof);
@@ -327,6 +333,10 @@ pub fn run_case<G: AffineRepr>(c: &R1csCase<G>, curve: &str, modulus: &str) -> C
     }
     // Coq term
     let mut coq = String::new();
+    if !c.model {
+        let obs = obs.into_inner();
+        return CaseOut { coq, obs, summary };
+    }
     let bytes = |b: &[u8]| bytes_coq(b);
     let _ = writeln!(coq, "Definition {} : r1cs_case := mkCase", id);
     let _ = writeln!(coq, "  {}%Z {}", modulus, bytes(c.label));
@@ -513,6 +523,67 @@ pub fn gen_cases<G: AffineRepr>(seed: u64, tier: &str, stream: &str, curve_idx: 
                     .collect();
                 c.muts = vec![m];
                 out.push(c);
+            }
+            // capacity grid (C17): fixed program per (n1, n2), every capacity pair
+            "capgrid" => {
+                let g: usize = if thorough { 5 } else { 3 };
+                let caps: Vec<usize> = if thorough { vec![0, 1, 2, 3, 4, 5, 7, 8, 9, 16] } else { vec![0, 1, 2, 3, 4, 8] };
+                if k > 0 { continue; }
+                let mut idx = 0;
+                for n1 in 0..g as usize {
+                    for n2 in 0..g as usize {
+                        let mut prng = ChaChaRng::seed_from_u64(seed ^ 0xca9 ^ ((n1 * 16 + n2) as u64));
+                        let v: F<G> = F::<G>::rand(&mut prng);
+                        let mut prog: Vec<COp<F<G>>> = vec![COp::Commit(v, F::<G>::rand(&mut prng))];
+                        for _ in 0..n1 {
+                            prog.push(COp::AllocMul(Some((F::<G>::rand(&mut prng), F::<G>::rand(&mut prng)))));
+                        }
+                        prog.push(COp::Constrain(vec![(V::Committed(0), Sx::C(F::<G>::from(1u64))), (V::One, Sx::C(-v))]));
+                        if n2 > 0 || (n1 + n2) % 2 == 1 {
+                            let mut body = vec![ROp::Chal(LABELS[0])];
+                            for _ in 0..n2 {
+                                body.push(ROp::AllocMul(Some((Sx::Ch(0), Sx::C(F::<G>::rand(&mut prng))))));
+                            }
+                            prog.push(COp::Randomize(body));
+                        }
+                        let pn = (n1 + n2).next_power_of_two().max(1);
+                        let ext: u64 = prng.gen();
+                        for &cp in &caps {
+                            let cvs: Vec<usize> = if cp >= pn { caps.clone() } else { vec![pn] };
+                            for &cv in &cvs {
+                                let mut c = R1csCase::plain(format!("c_capgrid_{}_{}", curve_idx, idx), prog.clone(), cp, cv, ext);
+                                // the model evaluates the boundary cases; the rest of the grid runs on the real code only
+                                c.model = curve_idx == (seed % 3) && (cp + 1 == pn || cp == pn || cp == 2 * pn) && (cv + 1 == pn || cv == pn);
+                                c.tag = format!("capgrid n1={} n2={} pn={} capp={} capv={} grp={}_{}", n1, n2, pn, cp, cv, n1, n2);
+                                out.push(c);
+                                idx += 1;
+                            }
+                        }
+                    }
+                }
+            }
+            // RNG discipline (C09): same program under (seed a, seed a, seed b, seed a with other commitment blindings)
+            "rngdet" => {
+                if k >= (if thorough { 12 } else { 4 }) { continue; }
+                let sh = Shape { commits: 1 + k % 2, ops1: k % 4, closures: if k % 2 == 1 { 1 } else { 0 }, ops2: 2 + k % 3, allow_missing: false };
+                let g = gen_program::<F<G>>(&mut rng, &sh);
+                let n = (g.n1 + g.n2).next_power_of_two().max(1);
+                let sa: u64 = rng.gen();
+                let sb: u64 = rng.gen();
+                for (j, sd) in [sa, sa, sb, sa].iter().enumerate() {
+                    let mut prog = g.prog.clone();
+                    if j == 3 {
+                        for op in prog.iter_mut() {
+                            if let COp::Commit(v, vb) = op {
+                                *op = COp::Commit(*v, *vb + F::<G>::from(1u64));
+                            }
+                        }
+                    }
+                    let mut c = R1csCase::plain(format!("c_rngdet_{}_{}_{}", curve_idx, k, j), prog, n, n, *sd);
+                    c.model = j == 0;
+                    c.tag = format!("rngdet variant={} n1={} n2={} grp={}", j, g.n1, g.n2, k);
+                    out.push(c);
+                }
             }
             // every proof field perturbed once: 11 fixed points, L_0, R_0 (offset by a random generator multiple), 5 scalars
             "mutfields" => {
